@@ -12,7 +12,7 @@ Proof.
   lazymatch eval vm_compute in
     (List.map fst (List.filter (fun ne => negb (literal_reply_ok (snd (snd ne)))) (List.combine netwrite_literal_names netwrite_literals))) with
   | nil => idtac
-  | cons ?n _ => fail n "<- not a valid reply"
+  | cons ?n _ => fail 0 n "<- not a valid reply"
   end.
   vm_compute. reflexivity.
 Qed.
@@ -22,7 +22,7 @@ Proof.
   lazymatch eval vm_compute in
     (List.map fst (List.filter (fun ne => negb (template_ok (snd (snd ne)))) (List.combine writen_template_names writen_templates))) with
   | nil => idtac
-  | cons ?n _ => fail n "<- array outside the contract of net_writen"
+  | cons ?n _ => fail 0 n "<- array outside the contract of net_writen"
   end.
   vm_compute. reflexivity.
 Qed.
@@ -33,7 +33,7 @@ Proof.
   lazymatch eval vm_compute in
     (List.map fst (List.filter (fun ne => negb ((fun t => ml_template_ok t && Nat.ltb (List.length t) ML_CAPACITY) (snd (snd ne)))) (List.combine multiline_template_names multiline_templates))) with
   | nil => idtac
-  | cons ?n _ => fail n "<- not a valid multi-line reply or too long for its array"
+  | cons ?n _ => fail 0 n "<- not a valid multi-line reply or too long for its array"
   end.
   vm_compute. reflexivity.
 Qed.
@@ -43,7 +43,7 @@ Proof.
   lazymatch eval vm_compute in
     (List.map fst (List.filter (fun ne => negb (seq_ok (snd (snd ne)))) (List.combine reply_sequence_names reply_sequences))) with
   | nil => idtac
-  | cons ?n _ => fail n "<- calls that together are not one valid reply"
+  | cons ?n _ => fail 0 n "<- calls that together are not one valid reply"
   end.
   vm_compute. reflexivity.
 Qed.
